@@ -148,3 +148,13 @@ def check(ctx):
     ctx.check(bool(rebinding) and not inplace, "T4-clear", cl, "Registrar.Clear: cls.Names = {} (rebinding), no in-place clear",
               "clearing in place while a house's namespace is current wipes that house's registry: its live instances are "
               "forgotten, later duplicates are accepted and automatic names collide")
+    # run-time creation paths bind the house's registries themselves (shared with C12)
+    ctx.rule("T6-runtime", "Framer.clone (also reached at run time through `rear`) calls assignRegistries() before it tests or registers a name")
+    frc = ctx.fn("framing", "Framer.clone")
+    R2 = FuncView(ctx, frc)
+    ar = R2.call_nodes("assignRegistries")
+    cons = R2.call_nodes("Framer")
+    ctx.check(bool(ar) and bool(cons) and R2.dominated(cons, ar), "T6-runtime", frc,
+              "Framer.clone: assignRegistries() precedes Framer(...)",
+              "a clone reared while another house's namespace is current is checked against, and registered in, that other "
+              "house's names: missing from its own registry, a foreign instance (or a spurious `already exists`) in the other")
